@@ -77,7 +77,8 @@ def main():
                     finished=tab.finished, completed=tab.completed, premature=tab.premature,
                     valid=tab.valid, invalid=tab.invalid, locked=bool(tab.rules.locked),
                     hist=len(tab.history), nrules=len(tab.rules), has_arg=tab.argument is not None,
-                    has_logic=tab.logic is not None, nopen=len(tab.open), nbranches=len(tab))
+                    has_logic=tab.logic is not None, nopen=len(tab.open), nbranches=len(tab),
+                    result=(tab.stats or {}).get('result') if Flag.FINISHED in f else None)
 
     conj = Operator.Conjunction(Atomic(0, 0), Atomic(1, 0))
 
